@@ -1,3 +1,437 @@
 import TlsModel.Proto
-/- driver stub for C05: replaced when the model exists -/
-def main : IO Unit := Tls.protoMain (fun _ => none)
+import TlsModel.Auth
+/-
+  Driver for C05 (symbolic instantiation of the abstract cryptography).
+
+  Signatures are symbolic: `toySign k alg data = [k] ++ tag(alg) ++ data`, `verify` compares.
+  Hashes are symbolic and length-faithful: `tag(h) :: fit(x, hashLen h - 1)`.
+
+  Ops (tokens are `key:value`, order free; lists are comma separated, `-` = empty):
+
+    shl ver:<n> small:<0|1> cert:<alg|->:<curve> set:<settings>
+        -> `a.b,a.b,...` | `-` | raise:<Name>                        (sigHashesToList)
+
+    site site:<ske|cv12|cv13c|cv13s|pha|dc> ver:<n> cert:<alg>:<curve>:<baselen>:<bits>
+         set:<settings> ch:<ids the verifier put in ClientHello/CertificateRequest | auto>
+         fam:<rsa|ecdsa> label:<a.b|-> sig:<form> [own:<a.b|->] [dc:<...>]
+        -> ok | alert:<n> | raise:<Name>
+      <form> = empty | garbage | badder | s:<signer>:<salg a.b|->:<msg>
+      <signer> = ee | other | dckey ;  <msg> = this | other | swaptag | nocontext
+
+    srp N:<n> g:<n> k:<n> x:<n> a:<n> b:<n> u:<n> [v:<n>] [A:<n>] [B:<n>]
+        -> <client premaster or alert:n> <server premaster or alert:n>
+
+    psk prf:<h> last:<0|1> cfg:<id>=<secret>=<hash>,... ids:<id>=<binderform>,...
+        -> none | sel:<index>:<id> | alert:<n>
+      <binderform> = ok:<secret hex> | bad
+
+    hs12s / hs13c / ...   handshake-level ordering ops, see `handle`.
+-/
+open Tls Tls.Auth Tls.Auth.Gen
+
+def tagOfHash : HashName → UInt8
+  | .none => 0 | .md5 => 1 | .sha1 => 2 | .sha224 => 3 | .sha256 => 4 | .sha384 => 5
+  | .sha512 => 6 | .intrinsic => 8
+
+def toyHashLen : HashName → Nat
+  | .md5 => 16 | .sha1 => 20 | .sha224 => 28 | .sha256 => 32 | .sha384 => 48 | .sha512 => 64
+  | _ => 0
+
+def fit (x : Bytes) (n : Nat) : Bytes := (x ++ List.replicate n 0).take n
+
+/-- 64-bit FNV-style accumulator, sensitive to every input byte and to the length -/
+def fnv (seed : Nat) (x : Bytes) : Nat :=
+  x.foldl (fun a b => ((a ^^^ (b.toNat + 1)) * 1099511628211 + 0x9e37) % 18446744073709551616) (seed + x.length)
+
+/-- symbolic hash of the right length: tag byte, then 8-byte FNV words with different seeds -/
+def toyHash (h : HashName) (x : Bytes) : Bytes :=
+  tagOfHash h :: fit ((List.range 8).flatMap fun i => beEncode 8 (fnv (14695981039346656037 + 7919 * i + (tagOfHash h).toNat) x))
+    (toyHashLen h - 1)
+
+def algTag : SigAlg → Bytes
+  | .rsaPkcs1 => [1]
+  | .rsaPss h n => [2, tagOfHash h, UInt8.ofNat n]
+  | .ecdsa => [3]
+  | .eddsa => [4]
+  | .dsa => [5]
+
+/-- ECDSA / DSA reduce the digest to the group order: compare on the leading 32 bytes only -/
+def normData (a : SigAlg) (d : Bytes) : Bytes :=
+  match a with
+  | .ecdsa | .dsa => d.take 32
+  | _ => d
+
+def toySign (k : Nat) (a : SigAlg) (d : Bytes) : Bytes :=
+  [0x53, UInt8.ofNat k] ++ algTag a ++ normData a d
+
+def toyCrypto : Crypto :=
+  { verify := fun k a d s => s == toySign k a d
+    hash := toyHash
+    hashLen := toyHashLen
+    pkcs1Prefix := fun h => [0x30, tagOfHash h]
+    pkcs1Sha1Alt := [0x31, 2]
+    derOk := fun s => s.head? != some 0xEE
+    hmac := fun h k d => [0x48, tagOfHash h] ++ k ++ [0x7c] ++ d
+    finKey := fun h s => [0x46, tagOfHash h] ++ s
+    prf12 := fun v m l t => [0x50, UInt8.ofNat v] ++ m ++ [0x7c] ++ l ++ [0x7c] ++ t
+    binderKey := fun h p e => [0x42, tagOfHash h, if e then 1 else 0] ++ p }
+
+/-! ### parsing -/
+
+def kv (toks : List String) (k : String) : Option String :=
+  toks.findSome? fun t =>
+    match t.splitOn ":" with
+    | k' :: rest => if k' == k then some (String.intercalate ":" rest) else none
+    | [] => none
+
+def listOf (s : String) : List String := if s == "-" || s == "" then [] else s.splitOn ","
+
+def parseHash : String → Option HashName
+  | "none" => some .none | "md5" => some .md5 | "sha1" => some .sha1 | "sha224" => some .sha224
+  | "sha256" => some .sha256 | "sha384" => some .sha384 | "sha512" => some .sha512
+  | "intrinsic" => some .intrinsic | _ => none
+
+def parsePad : String → Option RsaPad
+  | "pkcs1" => some .pkcs1 | "pss" => some .pss | _ => none
+
+def parseMore : String → Option MoreScheme
+  | "ed25519" => some .ed25519 | "ed448" => some .ed448 | "bp256" => some .bp256
+  | "bp384" => some .bp384 | "bp512" => some .bp512 | "mldsa44" => some .mldsa44
+  | "mldsa65" => some .mldsa65 | "mldsa87" => some .mldsa87 | _ => none
+
+def parseCurve : String → Option Curve
+  | "nist256" => some .nist256 | "nist384" => some .nist384 | "nist521" => some .nist521
+  | "bp256" => some .bp256 | "bp384" => some .bp384 | "bp512" => some .bp512
+  | "other" => some .other | "-" => some .other | _ => none
+
+def parseAlg : String → Option CertAlg
+  | "rsa" => some .rsa | "rsapss" => some .rsaPss | "ecdsa" => some .ecdsa
+  | "ed25519" => some .ed25519 | "ed448" => some .ed448 | "dsa" => some .dsa | _ => none
+
+def parseId (s : String) : Option SchemeId :=
+  match s.splitOn "." with
+  | [a, b] => do pure (← a.toNat?, ← b.toNat?)
+  | _ => none
+
+def parseIds (s : String) : Option (List SchemeId) := (listOf s).mapM parseId
+
+def parseSettings (s : String) : Option Settings := do
+  let parts := s.splitOn ";"
+  let get (k : String) : Option String := parts.findSome? fun t =>
+    match t.splitOn "=" with
+    | [k', v] => if k' == k then some v else none
+    | _ => none
+  pure { rsaSigHashes := ← (listOf (← get "rh")).mapM parseHash
+         rsaSchemes := ← (listOf (← get "rs")).mapM parsePad
+         ecdsaSigHashes := ← (listOf (← get "eh")).mapM parseHash
+         dsaSigHashes := ← (listOf (← get "dh")).mapM parseHash
+         moreSigSchemes := ← (listOf (← get "ms")).mapM parseMore
+         eccCurves := ← (listOf (← get "cv")).mapM parseCurve
+         minKeySize := ← (← get "min").toNat?
+         maxKeySize := ← (← get "max").toNat?
+         dcSigAlgs := ← parseIds ((get "dc").getD "-") }
+
+def showIds (l : List SchemeId) : String :=
+  if l.isEmpty then "-" else String.intercalate "," (l.map fun p => s!"{p.1}.{p.2}")
+
+def showReject : Reject → String
+  | .alert n => s!"alert:{n}"
+  | .raise n => s!"raise:{n}"
+
+def showRes {α : Type} (r : Except Reject α) : String :=
+  match r with
+  | .ok _ => "ok"
+  | .error e => showReject e
+
+/-- cert:<alg>:<curve>:<baselen>:<bits> with key id `k` -/
+def parseCert (k : Nat) (s : String) : Option Cert :=
+  match s.splitOn ":" with
+  | [a, c, bl, bits] => do
+    pure { key := k, alg := ← parseAlg a, curve := ← parseCurve c, baselen := ← bl.toNat?, bits := ← bits.toNat? }
+  | [a, c] => do pure { key := k, alg := ← parseAlg a, curve := ← parseCurve c }
+  | _ => none
+
+/-! ### the honest prover (specification side: what a peer holding `key` signs) -/
+
+def thisT : Transcript := [0xA1, 1, 2, 3, 4, 5, 6, 7]
+def otherT : Transcript := [0xB2, 1, 2, 3, 4, 5, 6, 7]
+def crThis : Bytes := List.replicate 32 0x11
+def crOther : Bytes := List.replicate 32 0x12
+def srThis : Bytes := List.replicate 32 0x21
+def skeParams : Bytes := [3, 0, 23, 4, 9, 9, 9, 9]
+def certBytesThis : Bytes := [0x30, 0x82, 7, 7]
+def credBytesThis : Bytes := [0, 9, 0x3a, 0x80, 8, 7, 0, 0, 3, 1, 2, 3]
+def firstHsT : Transcript := [0xF1, 0xF2, 0xF3]
+def crBytesThis : Bytes := [13, 0, 0, 5, 4, 0xC1, 0xC2, 0xC3, 0xC4]
+def crBytesOther : Bytes := [13, 0, 0, 5, 4, 0xD1, 0xD2, 0xD3, 0xD4]
+def crCtxThis : Bytes := [0xC1, 0xC2, 0xC3, 0xC4]
+def certMsgThis : Bytes := [11, 0, 0, 3, 9, 9, 9]
+
+/-- the message a peer at `site` signs (before any hashing), for message selector `msg` -/
+def proverMsg (site msg : String) (prf : HashName) : Bytes :=
+  let tr := if msg == "other" then otherT else thisT
+  match site with
+  | "ske" => (if msg == "other" then crOther else crThis) ++ srThis ++ skeParams
+  | "cv12" => tr
+  | "cv13c" =>          -- the client verifies: the server signs with the `server` tag
+    tbs13 (if msg == "swaptag" then tagClient else tagServer) (toyHash prf tr)
+  | "cv13s" => tbs13 (if msg == "swaptag" then tagServer else tagClient) (toyHash prf tr)
+  | "pha" =>
+    let t := if msg == "nocontext" then firstHsT ++ certMsgThis
+      else if msg == "other" then firstHsT ++ crBytesOther ++ certMsgThis
+      else firstHsT ++ crBytesThis ++ certMsgThis
+    tbs13 (if msg == "swaptag" then tagServer else tagClient) (toyHash prf t)
+  | _ => []
+
+/-- hash-then-sign as a holder of `key` (algorithm family from the KEY, parameters from `salg`) -/
+def proverSign (key : Cert) (salg : Option SchemeId) (legacyCv : Bool) (m : Bytes) : Bytes :=
+  let hOf : HashName := match salg with
+    | some sid => match schemeRepr sid.1 sid.2 with
+      | some i => i.hash
+      | none => (hashRepr sid.1).getD .sha1
+    | none => .sha1
+  match key.alg with
+  | .rsa | .rsaPss =>
+    match salg with
+    | none => toySign key.key .rsaPkcs1 (toyHash .md5 m ++ toyHash .sha1 m)
+    | some sid =>
+      let isPss : Bool := match schemeRepr sid.1 sid.2 with
+        | some i => i.pad == some .pss
+        | none => false
+      if isPss then toySign key.key (.rsaPss hOf (toyHashLen hOf)) (toyHash hOf m)
+      else toySign key.key .rsaPkcs1 ([0x30, tagOfHash hOf] ++ toyHash hOf m)
+  | .ecdsa => toySign key.key .ecdsa (toyHash hOf m)
+  | .ed25519 | .ed448 => toySign key.key .eddsa m
+  | .dsa =>
+    -- tlslite's TLS 1.0/1.1 DSA CertificateVerify signs MD5‖SHA-1 (mirrored, not RFC 4346)
+    if salg.isNone && legacyCv then toySign key.key .dsa (toyHash .md5 m ++ toyHash .sha1 m)
+    else toySign key.key .dsa (toyHash hOf m)
+
+def parseSigForm (form site : String) (prf : HashName) (ee other dck : Cert) (legacyCv : Bool)
+    (dcMsg : Bytes) : Option Bytes :=
+  match form.splitOn ":" with
+  | ["empty"] => some []
+  | ["garbage"] => some [0x47, 1, 2, 3]
+  | ["badder"] => some [0xEE, 1, 2, 3]
+  | ["s", signer, salg, msg] => do
+    let key ← match signer with
+      | "ee" => some ee | "other" => some other | "dckey" => some dck | _ => none
+    let salg ← if salg == "-" then some none else (parseId salg).map some
+    let m := if site == "dcsig" then dcMsg else proverMsg site msg prf
+    pure (proverSign key salg legacyCv m)
+  | _ => none
+
+/-! ### handlers -/
+
+def handleShl (toks : List String) : Option String := do
+  let ver ← (← kv toks "ver").toNat?
+  let small := (← kv toks "small") == "1"
+  let s ← parseSettings (← kv toks "set")
+  let chain : Chain ← match (← kv toks "cert") with
+    | "-" => some []
+    | c => (parseCert 1 c).map fun x => [x]
+  match sigHashesToList s small chain ver with
+  | .ok l => some (showIds l)
+  | .error e => some (showReject e)
+
+def handleSite (toks : List String) : Option String := do
+  let site ← kv toks "site"
+  let ver ← (← kv toks "ver").toNat?
+  let ee ← parseCert 1 (← kv toks "cert")
+  let other : Cert := { ee with key := 2 }
+  let s ← parseSettings (← kv toks "set")
+  let prf : HashName := (parseHash ((kv toks "prf").getD "sha256")).getD .sha256
+  let label : Option SchemeId ← match (← kv toks "label") with
+    | "-" => some none
+    | x => (parseId x).map some
+  let fam : SuiteSig := if (kv toks "fam").getD "rsa" == "ecdsa" then .ecdsaOrDsa else .rsaLike
+  let own : Option SchemeId := (kv toks "own").bind parseId
+  -- delegated credential description: dc:<alg>:<curve>:<dcscheme a.b>:<delegation alg a.b>:<delegation sigform>
+  let dcTok := kv toks "dc"
+  let C := toyCrypto
+  let chain : Chain := if (kv toks "nochain").isSome then [] else [ee]
+  let chAuto : List SchemeId :=
+    match sigHashesToList s false [] 4, sigHashesToList s false [] 3 with
+    | .ok l4, .ok l3 => l4 ++ l3.filter (fun x => !(l4.contains x))
+    | _, _ => []
+  let ch : List SchemeId ← match (kv toks "ch").getD "auto" with
+    | "auto" => some chAuto
+    | x => parseIds x
+  let dcKey : Cert ← match dcTok with
+    | some d => match d.splitOn ":" with
+      | a :: c :: _ => (parseCert 3 (a ++ ":" ++ c)).map fun k =>
+          { k with baselen := match k.curve with | .nist384 | .bp384 => 48 | .nist521 => 66 | .bp512 => 64 | _ => 32 }
+      | _ => none
+    | none => some { ee with key := 3 }
+  let form ← kv toks "sig"
+  let legacyCv := site == "cv12"
+  let sig ← parseSigForm form site prf ee other dcKey legacyCv []
+  let cv : CertVerify := { scheme := label, signature := sig }
+  match site with
+  | "ske" =>
+    let (ha, sa) := label.getD (0, 0)
+    let ske : SKE := { hashAlg := ha, signAlg := sa, params := skeParams, signature := sig }
+    some (showRes (verifySKE C s ver fam chain (some ske) crThis srThis))
+  | "cv12" => some (showRes (verifyCV12 C s ver chain thisT cv))
+  | "cv13s" => some (showRes (verifyCV13Server C s ch chain thisT prf own cv))
+  | "cv13c" =>
+    match dcTok with
+    | none => some (showRes (verifyCV13Client C s ch chain certBytesThis [] thisT prf cv))
+    | some d =>
+      match d.splitOn ":" with
+      | [_, _, dcs, dalg, dsigner, dsalg, dform] => do
+        let dcScheme ← parseId dcs
+        let dAlg ← parseId dalg
+        let dmsg := dcContext certBytesThis credBytesThis dAlg
+        let dsig ← if dform == "ok" then
+            parseSigForm s!"s:{dsigner}:{dsalg}:this" "dcsig" prf ee other dcKey false dmsg
+          else parseSigForm dform "dcsig" prf ee other dcKey false dmsg
+        let dc : DelegatedCred := { dcKey := dcKey, dcScheme := dcScheme, credBytes := credBytesThis,
+                                    algorithm := dAlg, signature := dsig }
+        some (showRes (verifyCV13Client C s ch chain certBytesThis [dc] thisT prf cv))
+      | _ => none
+  | "pha" =>
+    let cr : CertRequest := { context := crCtxThis, sigAlgs := ch, bytes := crBytesThis }
+    let st : PhaState := { requests := [(crCtxThis, cr)], clientCertChain := [], firstHs := firstHsT,
+                           clAppSecret := [7, 7], prf := prf, certRequired := false }
+    let cvBytes : Bytes := [15, 0, 0, 2, 1, 1]
+    let ctx1 := firstHsT ++ crBytesThis ++ certMsgThis ++ (if chain.isEmpty then [] else cvBytes)
+    let fin := if (kv toks "fin").getD "ok" == "ok" then finished13 C prf [7, 7] ctx1 else [0]
+    let ctxTok := (kv toks "ctx").getD "this"
+    let crContext := if ctxTok == "this" then crCtxThis else if ctxTok == "empty" then [] else [0xD1, 0xD2, 0xD3, 0xD4]
+    match phaServer C s st crContext chain certMsgThis cv cvBytes fin with
+    | .ok st' => some (if st'.clientCertChain.isEmpty then "ok:nochain" else "ok")
+    | .error e => some (showReject e)
+  | _ => none
+
+def showSrp (r : Except Reject Nat) : String :=
+  match r with
+  | .ok n => toString n
+  | .error e => showReject e
+
+def handleSrp (toks : List String) : Option String := do
+  let n (k : String) : Option Nat := (kv toks k).bind String.toNat?
+  let N ← n "N"; let g ← n "g"; let k ← n "k"; let x ← n "x"; let a ← n "a"; let b ← n "b"; let u ← n "u"
+  let v := (n "v").getD (powMod g x N)
+  let A := (n "A").getD (srpClientA N g a)
+  let B := (n "B").getD (srpServerB N g k v b)
+  let uc := (n "uc").getD u
+  let us := (n "us").getD u
+  some (showSrp (srpClientPremaster N g k x a B uc) ++ " " ++ showSrp (srpServerPremaster N v b A us))
+
+def handlePsk (toks : List String) : Option String := do
+  let prf ← parseHash (← kv toks "prf")
+  let last := (← kv toks "last") == "1"
+  let cfgs ← (listOf (← kv toks "cfg")).mapM fun t =>
+    match t.splitOn "=" with
+    | [i, sec, h] => do pure ({ identity := ← ofHex i, secret := ← ofHex sec, hash := ← parseHash h } : PskConfig)
+    | _ => none
+  let C := toyCrypto
+  let trunc : Transcript := [1, 0, 0, 9, 3, 3]
+  let ids ← (listOf (← kv toks "ids")).mapM fun t =>
+    match t.splitOn "=" with
+    | [i, "bad"] => do pure (← ofHex i, ([0xBA, 0xD0] : Bytes))
+    | [i, "empty"] => do pure (← ofHex i, ([] : Bytes))
+    | [i, "ok", sec, h, ext] => do
+      pure (← ofHex i, calcBinder C (← parseHash h) (← ofHex sec) trunc (ext == "1"))
+    | [i, "prefix", sec, h] => do
+      pure (← ofHex i, (calcBinder C (← parseHash h) (← ofHex sec) trunc true).dropLast)
+    | _ => none
+  match pskSelect C cfgs prf trunc last ids 0 with
+  | .ok none => some "none"
+  | .ok (some (i, c)) => some s!"sel:{i}:{toHex c.identity}"
+  | .error e => some (showReject e)
+
+def showOutcome (o : Outcome) : String :=
+  let idn := match o.session with
+    | none => "nosession"
+    | some s =>
+      "scc=" ++ (if s.serverCertChain.isEmpty then "0" else "1") ++
+      ",ccc=" ++ (if s.clientCertChain.isEmpty then "0" else "1") ++
+      ",srp=" ++ (if s.srpUsername.isSome then "1" else "0") ++
+      ",psk=" ++ (if s.pskIdentity.isSome then "1" else "0") ++
+      ",res=" ++ (if s.resumable then "1" else "0")
+  (if o.completed then "done" else "fail") ++ " " ++
+    (match o.reject with | some r => showReject r | none => "-") ++ " " ++ idn ++
+    " closed=" ++ (if o.closed then "1" else "0")
+
+/-- handshake-level ordering ops: the proofs are honest or bad as flags
+      hs12s ver cv:<ok|bad|none> fin:<ok|bad> [checker:<ok|bad>]
+      hs12c ver ske:<ok|bad|none> fin:<ok|bad> [checker]
+      hs13c cv:<ok|bad> fin:<ok|bad> [checker]
+      hs13s mode:<cert|psk|pskbad> cv:<ok|bad|none> fin:<ok|bad> [checker]
+      hssrp A:<ok|zero> fin:<ok|bad> -/
+def handleHs (op : String) (toks : List String) : Option String := do
+  let C := toyCrypto
+  let s : Settings := { rsaSigHashes := [.sha256], rsaSchemes := [.pss, .pkcs1], ecdsaSigHashes := [.sha256],
+                        dsaSigHashes := [], moreSigSchemes := [], eccCurves := [.nist256],
+                        minKeySize := 1023, maxKeySize := 8193 }
+  let srv : Cert := { key := 1, alg := .rsa, bits := 2048 }
+  let cli : Cert := { key := 5, alg := .rsa, bits := 2048 }
+  let finTok := (kv toks "fin").getD "ok"
+  let fp : Chain → Bytes := fun ch => ch.map fun c => UInt8.ofNat c.key
+  let wrap (isClient : Bool) (o : Outcome) : Outcome :=
+    match kv toks "checker" with
+    | some "ok" => wrapper fp (some (if isClient then [1] else [5])) isClient o
+    | some "bad" => wrapper fp (some [9]) isClient o
+    | _ => o
+  match op with
+  | "hs12s" =>
+    let ver ← (← kv toks "ver").toNat?
+    let cvTok ← kv toks "cv"
+    let chain : Chain := if cvTok == "none" then [] else [cli]
+    let lab : Option SchemeId := if ver = 3 then some (8, 4) else none
+    let sig := if cvTok == "ok" then proverSign cli lab true thisT else [0]
+    let master : Bytes := [9, 9]
+    let fin := if finTok == "ok" then finished12 C ver master lblClientFinished otherT else [0]
+    some (showOutcome (wrap false (hsServer12 C s ver [srv] chain thisT { scheme := lab, signature := sig } master otherT fin)))
+  | "hs12c" =>
+    let ver ← (← kv toks "ver").toNat?
+    let skeTok ← kv toks "ske"
+    let lab : Option SchemeId := if ver = 3 then some (8, 4) else none
+    let sig := if skeTok == "ok" then proverSign srv lab false (crThis ++ srThis ++ skeParams) else [0]
+    let (ha, sa) := lab.getD (0, 0)
+    let ske : Option SKE := if skeTok == "none" then none
+      else some { hashAlg := ha, signAlg := sa, params := skeParams, signature := sig }
+    let master : Bytes := [9, 9]
+    let fin := if finTok == "ok" then finished12 C ver master lblServerFinished otherT else [0]
+    some (showOutcome (wrap true (hsClient12 C s ver .rsaLike [srv] ske crThis srThis master otherT fin [])))
+  | "hs13c" =>
+    let cvTok ← kv toks "cv"
+    let sig := if cvTok == "ok" then proverSign srv (some (8, 4)) false (tbs13 tagServer (toyHash .sha256 thisT)) else [0]
+    let fin := if finTok == "ok" then finished13 C .sha256 [4, 4] otherT else [0]
+    some (showOutcome (wrap true (hsClient13 C s [(8, 4)] [srv] certBytesThis [] thisT .sha256
+      { scheme := some (8, 4), signature := sig } [4, 4] otherT fin)))
+  | "hs13s" =>
+    let mode ← kv toks "mode"
+    let cvTok ← kv toks "cv"
+    let cfg : PskConfig := { identity := [0x69], secret := [0x6b], hash := .sha256 }
+    let trunc : Transcript := [1, 0, 0, 9]
+    let offered : List (Bytes × Bytes) :=
+      if mode == "psk" then [([0x69], calcBinder C .sha256 [0x6b] trunc true)]
+      else if mode == "pskbad" then [([0x69], [0])]
+      else []
+    let chain : Chain := if cvTok == "none" then [] else [cli]
+    let sig := if cvTok == "ok" then proverSign cli (some (8, 4)) false (tbs13 tagClient (toyHash .sha256 thisT)) else [0]
+    let fin := if finTok == "ok" then finished13 C .sha256 [4, 4] otherT else [0]
+    some (showOutcome (wrap false (hsServer13 C s [srv] [cfg] .sha256 trunc true offered true [(8, 4)] chain thisT (some (8, 4))
+      { scheme := some (8, 4), signature := sig } [4, 4] otherT fin)))
+  | "hssrp" =>
+    let aTok ← kv toks "A"
+    let N := 23; let v := 4; let b := 3; let u := 5
+    let A := if aTok == "zero" then 46 else 8
+    let masterOf : Nat → Bytes := fun n => [UInt8.ofNat n]
+    let S := (srpServerPremaster N v b A u).toOption.getD 0
+    let fin := if finTok == "ok" then finished12 C 3 (masterOf S) lblClientFinished otherT else [0]
+    some (showOutcome (hsServerSRP C 3 [0x61] N v b A u masterOf otherT fin))
+  | _ => none
+
+def handle : List String → Option String
+  | "shl" :: toks => handleShl toks
+  | "site" :: toks => handleSite toks
+  | "srp" :: toks => handleSrp toks
+  | "psk" :: toks => handlePsk toks
+  | op :: toks => handleHs op toks
+  | [] => none
+
+def main : IO Unit := protoMain handle
